@@ -160,4 +160,9 @@ example : (run init [.acquire 1, .arrive 1, .acquire 2, .arrive 2]).crossed = fa
     cover -/
 theorem C08_client_immutable : Gen.Source.receiverWrites = [] := by decide
 
+/-- all the concurrency the library creates itself (regenerated inventory of `go` statements): the discovery
+    collector, the listener's reader and its shutdown watcher, the listener's dispatcher - the request paths start
+    none; the facts and theorems above are about exactly these -/
+theorem C08_goroutines : Gen.Source.goStatements = ["uhppote/UT0311.go:ut0311.Broadcast: 1", "uhppote/UT0311.go:ut0311.Listen: 2", "uhppote/listen.go:uhppote.Listen: 1"] := by decide
+
 end Uhppote.Props.C08
